@@ -370,6 +370,14 @@ func (n *vnet) runGossip(c c11Case, choose func(step, avail int) int, forge func
 				return "admitted-twice", fmt.Sprintf("node %d lists the awaiting transaction %d/%d times", i, li, lr), taken, avail, ""
 			}
 			if mustHave && (li != 1 || lr != 1) {
+				// quiescence was judged from the goroutine count; before calling an item lost, let the stricter profile-based
+				// settle confirm that nothing of the nodes is still on its way (a loaded machine starts goroutines late)
+				n.settle()
+				time.Sleep(50 * time.Millisecond)
+				li, lr = c11Listed(vn, item, issuer.Addr), c11Listed(vn, item, receiver.Addr)
+				if li == 1 && lr == 1 {
+					continue
+				}
 				sg := "not-delivered"
 				if c.Evil >= 0 {
 					sg = "delivery-suppressed-by-relay"
